@@ -510,6 +510,13 @@ func buildContext(c AVMap) pongo2.Context {
 	ctx := pongo2.Context{}
 	for k, v := range c {
 		ctx[k] = concretise(v)
+		// names starting with "ps": the same string behind a pointer (*string)
+		if str, ok := ctx[k].(string); ok && strings.HasPrefix(k, "ps") {
+			primePointerTypes()
+			p := new(string)
+			*p = str
+			ctx[k] = p
+		}
 		// names starting with "ty": the same sequence as a Go slice with an element type of its own ([]int, []string)
 		if l, ok := ctx[k].([]interface{}); ok && strings.HasPrefix(k, "ty") && len(l) > 0 {
 			switch l[0].(type) {
@@ -529,6 +536,19 @@ func buildContext(c AVMap) pongo2.Context {
 		}
 	}
 	return ctx
+}
+
+var pointerTypesPrimed bool
+
+// primePointerTypes prints a nil *string once per process, before any non-nil one is printed.
+func primePointerTypes() {
+	if pointerTypesPrimed {
+		return
+	}
+	pointerTypesPrimed = true
+	var np *string
+	set := pongo2.NewSet("prime", newMemLoader("prime", nil))
+	render(set, "{{ np }}{% for r in rows %}{{ r }}{% endfor %}{% firstof np %}", pongo2.Context{"np": np, "rows": []*string{nil, nil}})
 }
 
 func snapshotCtx(ctx pongo2.Context) string {
